@@ -20,7 +20,7 @@ class C02(E1Prop):
 
     def make_history(self, rng):
         from ..batchdb import gen
-        return gen.history(rng, special=0.25, weights={'late-resources': 4.0, 'compact-cycle': 6.0})
+        return gen.history(rng, special=0.25, weights={'late-resources': 4.0, 'compact-cycle': 6.0, 'resources-again': 6.0})
 
 
 PROP = C02()
